@@ -13,6 +13,7 @@ def run(tier, seed):
     rng = random.Random(seed * 7919 + 5)
     k = 1 if tier == "quick" else 20
     feats = [{"period_filter", "two_filters"}, {"period_filter"}, {"filter"}, {"period_filter", "two_filters", "mixed_discrete_choices"}, set(), {"filter", "stochastic"}, {"mixed_discrete_choices", "filter"}, {"two_cont_choices"}, {"period_filter", "stochastic"}]
+    feats = [f | {"separating"} for f in feats]      # values that tell the states apart
     fam, _ = e2e.fam_solve(rng, 36 * k, name="layout_vs_spec", features=feats, jit_modes=(True,))
     fam2, _ = e2e.fam_simulate(rng, 8 * k, judge=("C05",), name="locate_vs_solution")
     return [fam, fam2]
